@@ -55,11 +55,15 @@ fn gen_plan(focus: &str, seed: u64, run: u64, tier: Tier) -> Plan {
     // client appends: at every node at once (only a node that believes it leads accepts), biased to follow elections
     let n_app = rng.range(2, 14);
     let mut data = 1u64;
+    // swarm: in some runs every client append is a pipelined burst of 2-4 entries in the same millisecond
+    let burst = if on(&mut rng, 30) { rng.range(2, 4) } else { 1 };
     for _ in 0..n_app {
         let at = rng.range(500, horizon_ms.max(600));
-        for node in 0..nodes {
-            timed.push(Ev::Append { at_ms: at, node, data });
-            data += 1;
+        for _ in 0..burst {
+            for node in 0..nodes {
+                timed.push(Ev::Append { at_ms: at, node, data });
+                data += 1;
+            }
         }
     }
     if on(&mut rng, 70) {
